@@ -17,7 +17,7 @@ use sha1_smol;
 use std::collections::HashMap;
 use std::convert::{TryFrom, TryInto};
 use std::fs;
-use std::path::{Path, PathBuf};
+use std::path::{Component, Path, PathBuf};
 
 /// Metainfo file (also known as .torrent; see [BEP3](https://www.bittorrent.org/beps/bep_0003.html#metainfo%20files))
 /// describe all data required to find download file/files from peer-to-peer network.
@@ -192,6 +192,11 @@ impl Metainfo {
             return Err(Error::MetaInvalidU64("length"));
         }
 
+        // Name and file paths must stay inside download directory: no "..", no absolute paths
+        if !Self::is_safe_path(&name) || !files.iter().all(|file| Self::is_safe_path(&file.path)) {
+            return Err(Error::MetaIncorrectOrMissing("path"));
+        }
+
         let metainfo = Metainfo {
             announce: Self::find_announce(dict)?,
             name,
@@ -202,6 +207,13 @@ impl Metainfo {
         };
 
         Ok(metainfo)
+    }
+
+    fn is_safe_path(path: &String) -> bool {
+        Path::new(path).components().all(|component| match component {
+            Component::Normal(_) | Component::CurDir => true,
+            _ => false,
+        })
     }
 
     /// Find value for "announce" key in pre-parsed dictionary (converted to HashMap).
